@@ -126,6 +126,7 @@ func (u *Unit) callStatic(st *State, fr *Frame, in *ssa.Call, fn *ssa.Function, 
 func execDep(name string) bool {
 	switch {
 	case strings.HasPrefix(name, "github.com/go-i2p/crypto/ed25519.NewEd25519PublicKey"),
+		strings.HasPrefix(name, "github.com/go-i2p/crypto/ed25519.CreateEd25519PublicKeyFromBytes"),
 		strings.HasPrefix(name, "(github.com/go-i2p/crypto/") && (strings.HasSuffix(name, ").Len") || strings.HasSuffix(name, ").Bytes")):
 		return true
 	}
